@@ -90,10 +90,10 @@ func ssGen(r *rand.Rand, depth int, allowUnl bool, top bool) *ssNode {
 	nk := 2 + r.Intn(3)
 	for i := 0; i < nk; i++ {
 		var k *ssNode
-		if i == 0 && !top {
-			// a nested composite never begins with an empty part (see DESIGN: construction-time Left() of such a
-			// composite followed by an unknown part has side effects; outside the explored domain)
-			k = ssGenLeaf(r, allowUnl, false)
+		if i == 0 && !top && r.Intn(2) == 0 {
+			// half of the nested composites begin with a leaf that may be empty (NewComposite probes Left() of a
+			// nested composite: an empty first part followed by a part of unknown length used to start it)
+			k = ssGenLeaf(r, allowUnl, true)
 		} else {
 			k = ssGen(r, depth-1, allowUnl, false)
 		}
@@ -214,10 +214,20 @@ func schedStressMain(args []string) {
 			evs = append(evs, e)
 			evmu.Unlock()
 		}
-		root := tree.build()
-		wrapped := coreutil.NewCallbackOnFinishSchedule(root, func() { logEv(ssEv{Ev: "onfinish", Wall: []int{}, T: []int{}}) })
+		var wrapped core.Schedule
 		t0 := time.Now().Add(time.Millisecond)
-		wrapped.Start(t0)
+		setupPanic := func() (p interface{}) {
+			defer func() { p = recover() }()
+			root := tree.build()
+			wrapped = coreutil.NewCallbackOnFinishSchedule(root, func() { logEv(ssEv{Ev: "onfinish", Wall: []int{}, T: []int{}}) })
+			wrapped.Start(t0)
+			return nil
+		}()
+		if setupPanic != nil { // construction or Start panicked: no action of the specification, the trace is rejected
+			w.Emit(ssEv{Ev: "panic", Run: run, G: -1, Op: fmt.Sprint(setupPanic), Wall: []int{}, T: []int{}})
+			w.Emit(ssEv{Ev: "end", Run: run, Wall: []int{}, T: []int{}})
+			continue
+		}
 		rel := func(t time.Time) ([]int, bool) {
 			d := t.Sub(t0)
 			if d < 0 {
@@ -226,12 +236,22 @@ func schedStressMain(args []string) {
 			return vt.Limbs(int64(d)), false
 		}
 		var wg sync.WaitGroup
+		panicked := make(chan struct{}, 1)
 		for g := 0; g < G; g++ {
 			g := g
 			gr := rand.New(rand.NewSource(rnd.Int63()))
 			wg.Add(1)
 			go func() {
 				defer wg.Done()
+				defer func() {
+					if r := recover(); r != nil { // no action of the specification: the trace is rejected
+						logEv(ssEv{Ev: "panic", G: g, Op: fmt.Sprint(r), Wall: []int{}, T: []int{}})
+						select {
+						case panicked <- struct{}{}:
+						default:
+						}
+					}
+				}()
 				ends := 0
 				for calls := 0; ends < 3 && calls < 4000; calls++ {
 					if gr.Intn(4) == 0 {
@@ -299,13 +319,27 @@ func schedStressMain(args []string) {
 				}
 			}()
 		}
-		wg.Wait()
+		allDone := make(chan struct{})
+		go func() { wg.Wait(); close(allDone) }()
+		select {
+		case <-allDone:
+		case <-panicked:
+			// a panic inside the schedule may have left its lock held: the other goroutines of this run can block
+			// for ever; give them a moment, then abandon them (the run is rejected anyway)
+			select {
+			case <-allDone:
+			case <-time.After(300 * time.Millisecond):
+			}
+		}
+		evmu.Lock()
 		sort.Slice(evs, func(i, j int) bool { return evs[i].seq < evs[j].seq })
 		for _, e := range evs {
 			w.Emit(e)
 		}
 		w.Emit(ssEv{Ev: "end", Run: run, Wall: []int{}, T: []int{}})
 		total += len(evs)
+		evs = nil
+		evmu.Unlock()
 	}
 	fmt.Printf("{\"runs\":%d,\"events\":%d}\n", *runs, total)
 }
